@@ -69,6 +69,7 @@ class Spec:
                  explanation='', design_ref='', python_semantics=None, known_clause_map=None,
                  regular_strings=False):
         self.regular_strings = regular_strings
+        self.lemmas = []          # [(name, z3 formula)]: theory lemmas used by the contracts, proved on every run
         self.property_id, self.world, self.make_models = property_id, world, make_models
         self.targets = targets                    # list of contract names to prove
         self.replay = replay                      # fn(function, clause, model) -> dict
@@ -112,6 +113,16 @@ def run_property(modname, tier='quick', seed=0, jobs=None, write_ledger=False):
             reports.append(f.result())
         for f in bfuts:
             bounded.append(f.result())
+    if spec.lemmas:
+        from pyvc import verify
+        obl = []
+        for name, f in spec.lemmas:
+            st, be, sc, mo, de = verify.smt_check([], f, spec.z3_ms, None)
+            obl.append({'name': 'lemma:' + name, 'status': st, 'backend': be, 'secs': round(sc, 3), 'where': 'lemmas',
+                        'kind': 'lemma', 'model': mo, 'detail': de or '', 'npaths': 1})
+        reports.append({'name': 'contracts.%s.lemmas' % modname, 'file': os.path.join(VERIF, 'contracts', modname + '.py'),
+                        'lines': [0, 0], 'sha256': '', 'paths': len(obl), 'feasible_end_paths': 1, 'out_of_subset': [],
+                        'secs': round(sum(o['secs'] for o in obl), 3), 'error': None, 'obligations': obl})
     return finish(spec, modname, tier, seed, reports, bounded, t0, write_ledger)
 
 
